@@ -29,11 +29,27 @@ def _clear_dicts(cx):
 
 # ------------------------------------------------------------------ Gamma level
 
-def h_gamma_level(cx, layout, warm=None):
+def h_fft_exec(cx, idx, w_max, gap=1):
+    """The FFT branch of the real _calc_gamma, executed: rfft / irfft of the shim are the exact correlation-theorem model
+    (irfft(|rfft(x, P)|^2)[t] = sum_i x_i x_((i+t) mod P) on the sequence zero-padded to P; FFT numerics trusted), so the padding, the slice bounds
+    and what is added to gamma[...] are whatever the current source computes. Must equal the direct summation at every lag < w_max,
+    also for a replica shorter than w_max and for expanded (gapped) data."""
+    import pyerrors.obs as O
+    lib.sym_env(cx, *MODS, calc_gamma_direct=False)
+    n = len(idx)
+    d = np.array([cx.real('d%d' % i) for i in range(n)], dtype=object if cx.mode == 'sym' else float)
+    a = O.Obs._calc_gamma(None, d.copy(), list(idx), n, w_max, True, gap)
+    b = O.Obs._calc_gamma(None, d.copy(), list(idx), n, w_max, False, gap)
+    if cx.expect(len(a) == w_max and len(b) == w_max, 'w_max entries'):
+        for t in range(w_max):
+            cx.prove_eq(a[t], b[t], 'Gamma_fft(%d) = Gamma_direct(%d)' % (t, t))
+
+
+def h_gamma_level(cx, layout, warm=None, fft=False):
     """real _calc_gamma(fft=False) / _expand_deltas / _determine_gap / r_length / gamma_div on symbolic fluctuations:
     rho(t) = Gamma(t)/Gamma(0) with Gamma(t) = sum_r sum_{pairs t steps apart} delta_i delta_j / #pairs; S=0 gives the naive error.
     `warm`: layouts of other objects analysed earlier in the same process (history: nothing they leave behind may matter)."""
-    lib.sym_env(cx, *MODS)
+    lib.sym_env(cx, *MODS, calc_gamma_direct=not fft)
     _clear_dicts(cx)
     for k, wl in enumerate(warm or []):
         import pyerrors as pe
@@ -42,7 +58,7 @@ def h_gamma_level(cx, layout, warm=None):
         ow.gamma_method(S=0, fft=False)
         ow.gamma_method(fft=False)
     o, spec = lib.mk_obs(cx, 'x', layout)
-    o.gamma_method(S=0, fft=False)
+    o.gamma_method(S=0, fft=fft)           # fft=True: the FFT branch runs on the correlation-theorem model of rfft / irfft (h_fft_exec)
     ens = _ens(layout)
     dv2 = 0
     for e, reps in ens.items():
@@ -343,7 +359,7 @@ def h_bad_kwargs(cx):
                 cx.fail('no-exception[%s=%r]' % (k, v))
 
 
-HARNESSES = dict(gamma_level=h_gamma_level, gap_error=h_gap_error, fft_lemma=h_fft_lemma, expand_lemma=h_expand_lemma, post=h_post,
+HARNESSES = dict(gamma_level=h_gamma_level, gap_error=h_gap_error, fft_lemma=h_fft_lemma, fft_exec=h_fft_exec, expand_lemma=h_expand_lemma, post=h_post,
                  texp_short=h_texp_short, bad_kwargs=h_bad_kwargs)
 
 
@@ -372,6 +388,12 @@ def jobs(tier, seed):
     add('gap_error', layout={'e|r1': [2, 4, 6, 8, 10], 'e|r2': [3, 6, 9, 12, 15]})
     add('gap_error', layout={'e|r1': [1, 3, 5, 7, 9, 11], 'e|r2': [1, 4, 7, 10, 13]})
     add('fft_lemma')
+    # the FFT branch executed on the correlation-theorem model: long and short replicas relative to w_max, odd / even lengths, expanded data
+    for idx, wm, gap in (([1, 2, 3, 4, 5, 6, 7, 8], 4, 1), ([1, 2, 3, 4, 5, 6, 7], 3, 1), ([1, 2, 3, 4, 5], 8, 1), ([1, 2, 3, 4, 5, 6], 6, 1), ([1, 2, 3], 7, 1),
+                         ([2, 4, 8, 10, 14], 4, 2), ([1, 4, 7, 13], 6, 3), ([5], 3, 1)):
+        add('fft_exec', idx=idx, w_max=wm, gap=gap)
+    add('gamma_level', layout={'e|r1': [1, 2, 3, 4, 5, 6, 7, 8, 9, 10, 11, 12], 'e|r2': [1, 2, 3, 4, 5]}, fft=True)     # a replica shorter than w_max through the FFT branch
+    add('gamma_level', layout={'e|r1': [2, 4, 6, 10, 12, 14, 16], 'f|r1': [1, 2, 3, 4, 5, 6]}, fft=True)
     for n, gap in ((5, 1), (6, 2), (8, 3)):
         add('expand_lemma', n=n, gap=gap)
     add('bad_kwargs')
